@@ -370,6 +370,10 @@ def run(ck):
     check_props_change(ck, prog)
     ck.rule("C12-UPD", "update functions: allowed states and validation order")
     check_upd(ck, prog)
+    # "encoding then continues normally": lzma_code() returns to ISEQ_RUN after a completed flush/barrier (C11's
+    # transition relation of lzma_code, evaluated exhaustively)
+    from . import C11
+    C11.check_fsm(ck, prog)
     # the threaded encoder reports a full flush complete only when the output queue is empty (rule shared with C08)
     from . import C08
     ck.rule("C12-MTFLUSH", "threaded encoder: LZMA_FULL_FLUSH / LZMA_FINISH complete only with an empty output queue")
